@@ -41,6 +41,10 @@ META = {
 # the implementation's current behaviour w.r.t. the two modelled switches (Dist.v); flip after a repair in /repo
 GLOBAL_SKIP = False      # True once step() skips only when NO block of the group has a gradient (repair of F6)
 EAGER_MESHES = False     # True once every rank creates the state meshes of all source ranks (repair of F7)
+# for testing a candidate repair in a scratch copy only (like VERIF_REPO; registered commands never set these)
+if os.environ.get("VERIF_REPO", "/repo") != "/repo":
+    GLOBAL_SKIP = os.environ.get("C06_GLOBAL_SKIP", "0") == "1"
+    EAGER_MESHES = os.environ.get("C06_EAGER_MESHES", "0") == "1"
 
 SIG_STARVATION = "C06:rank-starvation"
 SIG_MESH = "C06:lazy-owner-only-mesh-creation"
@@ -565,7 +569,7 @@ def work_item(args):
     out["hangs"] = obs["hangs"]
     out["nsteps_done"] = [len(s) for s in obs["snaps"]]
     out["logs_short"] = [[e for e in model_log(lg)][:8] for lg in obs["logs"]]
-    out["coq"] = coq_case(i, spec, ref, obs, sig["starves"])
+    out["coq"] = coq_case(i, spec, ref, obs, bool(sig["starving_steps"]))
     # python-side summary used only for messages (never for the verdict)
     out["replicas_equal_py"] = all(s == obs["snaps"][0] for s in obs["snaps"])
     out["equals_ref_py"] = all(s == ref["snaps"] for s in obs["snaps"])
